@@ -25,8 +25,8 @@ CLAIMED = {
    note="Trusted: the reference interpreter (harness/hx/model.go) and the trace parser. Unspecified: negative offset/limit (only internal consistency of the trace is asserted), iteration order of maps, break inside tablerow (cell text only), two cycle tags of one group with different value lists.",
    ref="DESIGN.md 7.C11"),
  "C12": dict(
-   technique="property-based testing: rapid-generated programs against a reference interpreter, the capture-equivalence metamorphic relation, and an exhaustive family with a Drop over live state shadowed by a loop",
-   text="Generated programs interleaving assign, capture, loops that shadow outer names and forloop, conditionals and cycles end with a read of every variable and are compared with the reference interpreter; every generated fragment F is also rendered directly and through capture+print, which must agree.",
+   technique="property-based testing: rapid-generated programs against a reference interpreter, the capture-equivalence metamorphic relation, and exhaustive families (a Drop over live state shadowed by a loop; names bound by assign/capture read inside an included file)",
+   text="Generated programs interleaving assign, capture, loops that shadow outer names and forloop, conditionals and cycles end with a read of every variable and are compared with the reference interpreter; every generated fragment F is also rendered directly and through capture+print, which must agree; a name bound by assign or capture (also the names forloop, tablerowloop, include, page) must read the same inside an included file, on disk or cached, included at top level, in a loop, after a shadowing loop, inside an if.",
    note="Trusted: the reference interpreter. The include clause of the statement is exercised by C14's check (included templates read assigned variables, among them one the top template calls forloop). Outcomes the statements leave open are counted as unspecified and asserted nowhere.",
    ref="DESIGN.md 7.C12"),
  "C10": dict(
